@@ -2,7 +2,7 @@
    proofs in Proofs/PC08.v (delete with CAS on a visible item: C02_delete_cas_iff). *)
 From MC Require Import Model.Base Model.Generated Model.Store Model.Memc Model.Codec Model.Handler
   Spec.Exec Proofs.StoreLemmas Proofs.SetLemmas Proofs.MemcLemmas Proofs.Effects Proofs.PC06
-  Proofs.PC01 Proofs.PC02 Proofs.PC05 Proofs.PC08.
+  Proofs.PC01 Proofs.PC02 Proofs.PC05 Proofs.PC08 Proofs.PGuards Model.RustInt.
 
 Theorem C08_delete_absent : forall s k h,
   lookup k (s_mem s) = None ->
@@ -57,3 +57,9 @@ Example C08_nonvacuous :
   plain s /\ view (flush 5 s) [x61] = Some (mkRec 8 1 0 5 [x31]) /\
   view (with_now (flush 5 s) 13) [x61] = None /\ view (with_now (flush 5 s) 13) [x62] = None.
 Proof. repeat split. Qed.
+
+(* the source's test for "this flush is delayed" (translated on every run) is the model's *)
+Theorem C08_flush_delayed_is_source : src_flush_delayed_ok = true ->
+  forall delay, src_flush_delayed delay = Some (0 <? delay).
+Proof. exact flush_delayed_is_source. Qed.
+Print Assumptions C08_flush_delayed_is_source.
